@@ -267,6 +267,28 @@ impl Reporter {
 		self.viols.lock().unwrap().len()
 	}
 
+	/// A check that is already failing massively and slowly (a broken server makes every case wait for its transport
+	/// timeout) stops enumerating: what it has found decides the exit code, more of the same adds nothing. Violations that
+	/// the known-findings file lists do not count. The run is then reported as not exhaustive.
+	pub fn fail_fast(&self) -> bool {
+		if self.start.elapsed().as_secs() < 60 {
+			return false;
+		}
+		static KNOWN: std::sync::OnceLock<HashMap<(String, String), String>> = std::sync::OnceLock::new();
+		let known = KNOWN.get_or_init(|| load_known(&crate::verif_root()));
+		let cases: u64 = self.viols.lock().unwrap().iter().filter(|(sig, _)| !known.contains_key(&(self.prop.to_string(), sig.to_string()))).map(|(_, v)| v.count).sum();
+		if cases >= 300 {
+			let mut once = self.exhaustive.lock().unwrap();
+			if *once {
+				*once = false;
+				drop(once);
+				self.extra_push("caps_hit", json!(format!("stopped early after {cases} violating cases in {} s: the check was already failing", self.start.elapsed().as_secs())));
+			}
+			return true;
+		}
+		false
+	}
+
 	pub fn machinery_error(&self, msg: String) {
 		self.machinery_errors.lock().unwrap().push(msg);
 	}
